@@ -412,6 +412,7 @@ type ccSession struct {
 	steps     []ccStep
 	first     []ccFres           // script of this session's entry function (engine.WithFirst); nil: none
 	debug     int                // 0: no; 1: state-debug mode (Config.StateDebug / State.UseDebug); 2: also Config.EngineDebug and an engine debugger
+	live      []byte             // the pending-code slice that outlives its last request (st.Code of the long-lived state / of the last engine's state); kept referenced, so its array is never reused
 	lang      *string            // its own Config.Language (nil: the case's)
 	sharedPe  *persist.Persister // long-lived server shape: THE persister (WithFlush) every request of every session goes through
 	applog    bool               // the application logs through the library's logging API (one logger for all sessions)
@@ -618,6 +619,11 @@ func (s *ccSession) request(in []byte) bool {
 		if pe != nil && pe.State != nil && s.sh.overlaps(pe.State.Code) {
 			step.Aliased = true
 		}
+		if pe != nil && pe.State != nil {
+			s.live = pe.State.Code
+		}
+	} else {
+		s.live = s.st.Code
 	}
 	if st != nil && s.sh.overlaps(st.Code) {
 		step.Aliased = true
@@ -681,6 +687,29 @@ func (s *ccSession) finalSnap() string {
 	return s.steps[len(s.steps)-1].snap
 }
 
+// a session's pending code must live in memory of its own: its backing array (whole capacity) may overlap neither the
+// application's shared arrays (checked per request above) nor the backing array of ANY other session's pending code
+// (e.g. both inside one array owned by the library).  Marks the last request of both sessions.
+func ccPairwiseAlias(sessions []*ccSession, only int) bool {
+	found := false
+	for i, a := range sessions {
+		for j, b := range sessions {
+			if j <= i || (only >= 0 && i != only && j != only) {
+				continue
+			}
+			if ccOverlap(a.live[:cap(a.live)], b.live[:cap(b.live)]) {
+				found = true
+				for _, s := range []*ccSession{a, b} {
+					if n := len(s.steps); n > 0 {
+						s.steps[n-1].Aliased = true
+					}
+				}
+			}
+		}
+	}
+	return found
+}
+
 func (s *ccSession) aliased() bool {
 	for _, x := range s.steps {
 		if x.Aliased {
@@ -722,10 +751,11 @@ var ccSelPool = []string{"0", "1", "2", "3", "9", "a", "x1"}
 
 // applications made of CATCH / MOVE / INCMP chains: before its first HALT a node moves only forward
 // (so that no cycle avoids a HALT), INCMP may lead anywhere
-func ccGenApp(r *rand.Rand) ccGen { return ccGenAppOpt(r, false) }
+func ccGenApp(r *rand.Rand) ccGen { return ccGenAppOpt(r, false, false) }
 
 // noload: no LOAD / RELOAD anywhere (nothing ever enters the cache)
-func ccGenAppOpt(r *rand.Rand, noload bool) ccGen {
+// nopanic: no CATCH on a flag outside the configured range (the flag test would panic)
+func ccGenAppOpt(r *rand.Rand, noload, nopanic bool) ccGen {
 	flagCount := ccPick(r, []int{4, 4, 2, 8})
 	nn := 2 + r.Intn(4)
 	nodes := append([]string{"root"}, ccNodePool[:nn]...)
@@ -771,7 +801,19 @@ func ccGenAppOpt(r *rand.Rand, noload bool) ccGen {
 				later = append(later, cand)
 			}
 		}
-		if n == "_catch" {
+		if n == "_catch" && r.Intn(3) == 0 {
+			// a SHORT catch node (at most 7 bytes): it fits into the spare capacity of whatever buffer the VM's own
+			// MOVE _catch line lives in
+			// (always with a HALT: a bare "MOVE _" can bounce for ever between a node whose LOAD keeps failing and _catch)
+			switch r.Intn(5) {
+			case 0, 1:
+				add("HALT", ccLine(vm.HALT, nil, nil, nil))
+				add("MOVE ^", ccLine(vm.MOVE, []string{"^"}, nil, nil))
+			default:
+				add("HALT", ccLine(vm.HALT, nil, nil, nil))
+				add("MOVE _", ccLine(vm.MOVE, []string{"_"}, nil, nil))
+			}
+		} else if n == "_catch" {
 			add("MOUT back 0", ccLine(vm.MOUT, []string{"back", "0"}, nil, nil))
 			add("HALT", ccLine(vm.HALT, nil, nil, nil))
 			d := ccPick(r, []string{"_", "^", "root"})
@@ -803,6 +845,9 @@ func ccGenAppOpt(r *rand.Rand, noload bool) ccGen {
 					fl := uint32(8 + r.Intn(flagCount))
 					if r.Intn(10) == 0 {
 						fl = uint32(ccPick(r, []int{3, 6, 8 + flagCount}))
+						if nopanic && int(fl) >= 8+flagCount {
+							fl = 3
+						}
 					}
 					mode := r.Intn(3) > 0
 					mb := uint8(0)
@@ -880,8 +925,8 @@ var ccLangs = []string{"nor", "swa", "fra", "eng"}
 
 // an application with a language-switching function (lang1: answers a language code and sets FLAG_LANG, as in the
 // engine driver) loaded by one or two nodes, and translated templates for some nodes and languages
-func ccGenLangApp(r *rand.Rand, withFunc bool) ccGen {
-	g := ccGenAppOpt(r, !withFunc)
+func ccGenLangApp(r *rand.Rand, withFunc, nopanic bool) ccGen {
+	g := ccGenAppOpt(r, !withFunc, nopanic)
 	a := g.app
 	if !withFunc {
 		ccTranslate(r, a)
@@ -1059,6 +1104,7 @@ func ccInterleaved(r *rand.Rand, g ccGen, pers []bool, firsts [][]ccFres, hist [
 		}
 		i := ccPick(r, live)
 		run.sessions[i].request(hist[i][pos[i]])
+		ccPairwiseAlias(run.sessions, i)
 		pos[i]++
 		run.sched = append(run.sched, i)
 	}
@@ -1101,6 +1147,7 @@ func ccConcurrent(g ccGen, pers []bool, firsts [][]ccFres, hist [][][]byte, x *c
 	}
 	close(start)
 	wg.Wait()
+	ccPairwiseAlias(run.sessions, -1)
 	run.final = sh.codeArrays()
 	run.other = sh.otherIntact()
 	return run, nil
@@ -1581,7 +1628,7 @@ func ccProbeFlushReuse(o opts) error {
 	diffs, n := 0, 30
 	for i := 0; i < n; i++ {
 		r := hx.Rng(o.seed, "probe-flushreuse", i)
-		g := ccGenLangApp(r, true)
+		g := ccGenLangApp(r, true, false)
 		k := 2 + r.Intn(3)
 		pers := make([]bool, k)
 		hist := make([][][]byte, k)
@@ -1672,7 +1719,9 @@ func ccRunAlias(o opts) error {
 		shared := i%3 == 2 || onlyShared
 		var g ccGen
 		if shared {
-			g = ccGenLangApp(r, false)
+			// LOAD/RELOAD and the lang1 function: possible since a037abb repaired the persister's flush; no panicking flag test
+			// (a request that panics is never saved, and what it leaves in the persister is the next session's: K-C11-6, remaining part)
+			g = ccGenLangApp(r, true, true)
 		} else {
 			g = ccGenApp(r)
 		}
@@ -1856,7 +1905,7 @@ func ccRunRace(o opts) error {
 		var g ccGen
 		if i%3 == 0 {
 			// language runs: a lang1 function (answers language codes, sets FLAG_LANG) loaded by some nodes, translated templates
-			g = ccGenLangApp(r, true)
+			g = ccGenLangApp(r, true, false)
 		} else {
 			g = ccGenApp(r)
 		}
